@@ -18,6 +18,7 @@ T.t_hdr = PEV.t_hdr
 T.t_width = PEV.t_width
 T.t_tname = PEV.t_tname
 T.t_flen = PEV.t_flen
+T.t_fsplit = PEV.t_fsplit
 IO.t_eof = PEV.t_eof
 IO.h_toio = PEV.h_toio
 IO.h_fromio = PEV.h_fromio
@@ -93,7 +94,7 @@ def reg(pid, level, rules, explanation):
 
 reg("C01", "other",
     [T.t_bij, P.t_prop3, L.l_eq, B.l_cover, P.l_propdec, D.h_dispatch3, T.t_varint_readers, PL.s_persist, PL.h_total,
-     B.t_bits, C.h_payfmt, L.t_ctl, P3.h_shortform, TR.l_trace, P3.t_prims, T.t_proto, P.h_bytevals, T.t_varint_writer, P.t_props_whole, P.t_props_encvalues, IO.s_collect, P3.l_entries, P3.h_reason_bytes, P.t_props],
+     B.t_bits, C.h_payfmt, L.t_ctl, P3.h_shortform, TR.l_trace, P3.t_prims, T.t_proto, P.h_bytevals, T.t_varint_writer, P.t_props_whole, P.t_props_encvalues, IO.s_collect, P3.l_entries, P3.h_reason_bytes, P.t_props, RA.h_raise],
     "NOT decided: equality of the decoded value with the original over the unbounded value space (a runtime quantity). Decided: structural necessary conditions of a round trip, each exact for what it compares: "
     "T-bij (every wire-code enum's `as u8` discriminant table and its from_u8 table, evaluated for all 256 bytes, are inverse "
     "bijections), T-prop3 (decode / encode / encode_len of every v5 property set handle the same ids wired to the same field), L-eq "
@@ -108,7 +109,7 @@ reg("C01", "other",
     "it was read -- not clamped, defaulted, normalised or derived; decoded lists and strings are not rearranged in place), T-props whole / "
     "T-propid values (each property decoder stores, and each property encoder writes, the value as it is), L-entries (list entries: every "
     "SUBACK / UNSUBACK code byte decodes to the variant its table names and every variant is written as its code; filters are stored and "
-    "written as they are), H-raise reason bytes (every accepted reason byte of every v5 decoder yields the variant its table names).")
+    "written as they are), H-raise reason bytes (every accepted reason byte of every v5 decoder yields the variant its table names), H-raise placement / payload (a decoder refuses only at the catalogued sites under the catalogued guards -- each of which refuses bytes no encoder writes; a refusal anywhere else is a packet that encodes but does not decode).")
 
 reg("C02", "other",
     [L.l_eq, L.l_hdr, L.l_fixed, L.s_dbg, PN.s_panic_encode, T.t_width, T.t_varint_writer, P3.t_prims, IO.h_async1, IO.s_writers],
@@ -136,7 +137,7 @@ reg("C03", "other",
 
 reg("C04", "other",
     [T.t_codes, T.t_hdr, P.t_props, P.t_props_whole, P.h_proplen, P.h_dup, P.h_bytevals, P.l_propdec, PL.h_exactfill, B.t_bits, B.h_checked_sub,
-     B.l_consume, C.h_ctor, C.h_utf8, T.t_varint_readers, P3.h_shortform, P3.t_prims, C.h_accessors, T.t_width, TR.l_trace, IO.s_collect, T.t_proto, P3.l_entries, P3.h_reason_bytes, D.h_dispatch3, T.t_tname, T.t_flen],
+     B.l_consume, C.h_ctor, C.h_utf8, T.t_varint_readers, P3.h_shortform, P3.t_prims, C.h_accessors, T.t_width, TR.l_trace, IO.s_collect, T.t_proto, P3.l_entries, P3.h_reason_bytes, D.h_dispatch3, T.t_tname, T.t_flen, RA.h_raise],
     "NOT decided: language equality between the strict decoder's accepted set and the MQTT grammar, nor the conjunction of the "
     "clauses below into it. Decided exactly against independent OASIS tables (spec_mqtt.py): header nibble/flag table for all 256 "
     "control bytes (T-hdr), accepted domain of every code table (T-codes), permitted property set per packet and its rejecting default "
@@ -146,7 +147,7 @@ reg("C04", "other",
     "protocol name / level pairs accepted exactly as (MQIsdp,3) (MQTT,4) (MQTT,5) (T-proto), validated constructors for pid/topic/filter/var-int (H-ctor) with the variable byte integer's bound at exactly 2^28 (T-width), UTF-8 validation before string construction (H-utf8), the three v5 "
     "short forms and no others (H-shortform); what an accepting decoder puts into the packet is what it read -- every integer wider than a "
     "byte, string, binary field and property value is stored as it is, and decoded lists and strings are not rearranged afterwards "
-    "(L-trace value clauses, T-props whole), and every entry read in a loop is stored unconditionally (S-collect). The library's deliberate leniencies are listed in DESIGN.md section 5.")
+    "(L-trace value clauses, T-props whole), and every entry read in a loop is stored unconditionally (S-collect); the decoders refuse only at the catalogued sites, under the guard and with the payload the catalogue names (H-raise: a refusal anywhere else rejects frames the tables above call well-formed). The library's deliberate leniencies are listed in DESIGN.md section 5.")
 
 reg("C05", "other",
     [PL.h_borrow, PL.h_stateclone, PL.s_persist, PL.h_pending, PL.h_cap, PL.h_total, T.t_varint_readers],
@@ -185,7 +186,7 @@ reg("C07", "other",
 
 reg("C08", "other",
     [PL.h_total, PL.h_cap, B.l_consume, P.l_propdec, P.h_proplen, T.t_width, T.t_varint_readers, PL.s_persist, P3.h_shortform,
-     C.h_utf8, IO.s_readers, P3.t_prims, T.t_varint_writer, T.t_bij, PL.h_stateclone, PL.h_borrow, D.h_hdr1],
+     C.h_utf8, IO.s_readers, P3.t_prims, T.t_varint_writer, T.t_bij, PL.h_stateclone, PL.h_borrow, D.h_hdr1, IO.h_noswallow],
     "NOT decided: equality of a decoded sequence with a generated one over all histories. Decided: the per-packet consumption "
     "invariant from which framing follows by induction: the poll decoder reads 1 + (1 + var_idx) header bytes and exactly "
     "remaining_len body bytes and reports their sum (P-header, P-complete, P-body, S-persist); every accounting body decoder consumes "
@@ -193,7 +194,7 @@ reg("C08", "other",
     "H-proplen, under minimal var-ints); the v5 acknowledgement family reads exactly the declared length in its fixed-size forms and "
     "goes on to the property block otherwise (H-shortform); total_len / header_len / remaining_len are mutually consistent (T-width); on "
     "the encoding side of the sequence, every length is written as the variable byte integer the readers invert (V-writer) and every code "
-    "byte a table writes is the one its from_u8 maps back to the same variant (T-bij).")
+    "byte a table writes is the one its from_u8 maps back to the same variant (T-bij); a front-end that is handed the stream piece by piece (the slice decoder on an accumulation buffer) relies on a cut inside a packet being reported as incomplete: no body decoder turns an end of input into a value or into another error (H-noswallow).")
 
 reg("C09", "other",
     [IO.h_async1, IO.h_asref, IO.s_writers, IO.s_pure, L.l_hdr, L.l_fixed, L.l_eq, P3.t_prims, T.t_varint_writer],
@@ -272,7 +273,7 @@ reg("C15", "other",
     "transfer functions by the textbook argument; stated, not mechanised).")
 
 reg("C17", "other",
-    [C.h_fields, C.h_accessors, C.h_ctor, T.t_flen, PN.s_panic_validator],
+    [C.h_fields, C.h_accessors, C.h_ctor, T.t_flen, T.t_fsplit, PN.s_panic_validator],
     "Sentence 2 decided exactly: eq / cmp / partial_cmp / hash of TopicFilter are hand-written and, evaluated on abstract filters with "
     "different cached indices, are exactly the text's own eq / cmp / hash; Display/Deref read only the text (H-fields); the constructor "
     "stores its argument unchanged (H-ctor). Sentence 1 partly decided (necessary): accessors slice inner[7..sep] / inner[sep+1..] only "
@@ -291,7 +292,7 @@ reg("C18", "proof",
     "the constructor accepts the string read -- no further condition on the value -- and a refusal becomes InvalidResponseTopic (H-topicvals).")
 
 reg("C20", "other",
-    [RA.h_raise, RA.h_order, P3.h_erreq, C.h_protoread, T.t_tname, T.t_flen, P.t_props, P.t_props_whole, P.h_proplen, P.h_dup, P.h_bytevals, D.h_dispatch3, PL.h_exactfill, D.h_block,
+    [RA.h_raise, RA.h_order, B.l_precharge, P3.h_erreq, C.h_protoread, T.t_tname, T.t_flen, P.t_props, P.t_props_whole, P.h_proplen, P.h_dup, P.h_bytevals, D.h_dispatch3, PL.h_exactfill, D.h_block,
      IO.h_noswallow, T.t_codes, B.h_checked_sub, B.t_bits, C.h_utf8],
     "NOT decided: that a given byte-level malformation of a given packet reaches the site the catalogue names (path feasibility "
     "over inputs). Decided: every raise site carries the value its guard tested (H-raise payload rule), each documented variant is "
